@@ -48,43 +48,44 @@ def access (L : Layout) (m : Mem) (fc : Nat) (valueOk : Bool) (ranges : List (In
   | none => (m, .exception fc 1)
   | some t =>
     let k := L.tbl t
-    let off : Int := if L.zeroMode then 0 else 1
+    let off : Int := bif L.zeroMode then 0 else 1
     if L.broken k then (m, .exception fc 4)
     else if !(ranges.all (fun r => Spec.populated (m k) (r.1 + off) r.2)) then (m, .exception fc 2)
     else effect k off
 
+/-! effects of the accepted requests (named so that statements about them share one definition) -/
+def effRead (m : Mem) (mk : List Nat → Resp) (a n : Nat) (k : Nat) (off : Int) : Mem × Resp :=
+  (m, mk (readCells (m k) (a + off) n))
+def effWrite (m : Mem) (a : Nat) (vs : List Nat) (resp : Resp) (k : Nat) (off : Int) : Mem × Resp :=
+  (m.update k (writeCells (m k) (a + off) vs), resp)
+/-- mask write: result `(cur AND and) OR (or AND NOT and)` on 16 bits -/
+def effMask (m : Mem) (a am om : Nat) (k : Nat) (off : Int) : Mem × Resp :=
+  match m k (a + off) with
+  | some cur => (m.update k (writeCells (m k) (a + off) [(cur &&& am) ||| (om &&& (0xFFFF - am))]), .maskWrite a am om)
+  | none => (m, .exception 22 2)
+/-- read/write multiple: the write is applied before the read -/
+def effReadWrite (m : Mem) (ra rn wa : Nat) (wregs : List Nat) (k : Nat) (off : Int) : Mem × Resp :=
+  let c' := writeCells (m k) (wa + off) wregs
+  (m.update k c', .readWrite (readCells c' (ra + off) rn))
+
 def step (L : Layout) (m : Mem) : Req → Mem × Resp
-  | .readCoils a n => access L m 1 (1 ≤ n ∧ n ≤ 2000) [(a, n)]
-      (fun k off => (m, .readCoils (readCells (m k) (a + off) n)))
-  | .readDiscrete a n => access L m 2 (1 ≤ n ∧ n ≤ 2000) [(a, n)]
-      (fun k off => (m, .readDiscrete (readCells (m k) (a + off) n)))
-  | .readHolding a n => access L m 3 (1 ≤ n ∧ n ≤ 125) [(a, n)]
-      (fun k off => (m, .readHolding (readCells (m k) (a + off) n)))
-  | .readInput a n => access L m 4 (1 ≤ n ∧ n ≤ 125) [(a, n)]
-      (fun k off => (m, .readInput (readCells (m k) (a + off) n)))
+  | .readCoils a n => access L m 1 (1 ≤ n ∧ n ≤ 2000) [(a, n)] (effRead m .readCoils a n)
+  | .readDiscrete a n => access L m 2 (1 ≤ n ∧ n ≤ 2000) [(a, n)] (effRead m .readDiscrete a n)
+  | .readHolding a n => access L m 3 (1 ≤ n ∧ n ≤ 125) [(a, n)] (effRead m .readHolding a n)
+  | .readInput a n => access L m 4 (1 ≤ n ∧ n ≤ 125) [(a, n)] (effRead m .readInput a n)
   | .writeCoil a w => access L m 5 (w = 0xFF00 ∨ w = 0) [(a, 1)]
-      (fun k off => (m.update k (writeCells (m k) (a + off) [b2n (w = 0xFF00)]), .writeCoil a (b2n (w = 0xFF00))))
-  | .writeRegister a v => access L m 6 (v ≤ 0xFFFF) [(a, 1)]
-      (fun k off => (m.update k (writeCells (m k) (a + off) [v]), .writeRegister a v))
+      (effWrite m a [b2n (w = 0xFF00)] (.writeCoil a (b2n (w = 0xFF00))))
+  | .writeRegister a v => access L m 6 (v ≤ 0xFFFF) [(a, 1)] (effWrite m a [v] (.writeRegister a v))
   | .writeCoils a cnt bc vs =>
       access L m 15 (1 ≤ cnt ∧ cnt ≤ 1968 ∧ bc = (cnt + 7) / 8 ∧ vs.length = cnt) [(a, cnt)]
-      (fun k off => (m.update k (writeCells (m k) (a + off) (vs.map b2n)), .writeCoils a cnt))
+        (effWrite m a (vs.map b2n) (.writeCoils a cnt))
   | .writeRegisters a cnt bc vs =>
       access L m 16 (1 ≤ cnt ∧ cnt ≤ 123 ∧ bc = 2 * cnt ∧ vs.length = cnt) [(a, cnt)]
-      (fun k off => (m.update k (writeCells (m k) (a + off) vs), .writeRegisters a cnt))
-  | .maskWrite a am om => access L m 22 (am ≤ 0xFFFF ∧ om ≤ 0xFFFF) [(a, 1)]
-      (fun k off =>
-        match m k (a + off) with
-        | some cur =>
-          (m.update k (writeCells (m k) (a + off) [(cur &&& am) ||| (om &&& (0xFFFF - am))]), .maskWrite a am om)
-        | none => (m, .exception 22 2))
+        (effWrite m a vs (.writeRegisters a cnt))
+  | .maskWrite a am om => access L m 22 (am ≤ 0xFFFF ∧ om ≤ 0xFFFF) [(a, 1)] (effMask m a am om)
   | .readWrite ra rn wa wn wbc wregs =>
       access L m 23 (1 ≤ rn ∧ rn ≤ 125 ∧ 1 ≤ wn ∧ wn ≤ 121 ∧ wbc = 2 * wn ∧ wregs.length = wn)
-        [(wa, wn), (ra, rn)]
-      (fun k off =>
-        -- the write is applied before the read
-        let c' := writeCells (m k) (wa + off) wregs
-        (m.update k c', .readWrite (readCells c' (ra + off) rn)))
+        [(wa, wn), (ra, rn)] (effReadWrite m ra rn wa wregs)
   | .illegalFunction fc => (m, .exception fc 1)
   | r => (m, .exception r.fc 1)
 
